@@ -307,6 +307,9 @@ impl Peer for ConnectProxy {
         self.buf.extend_from_slice(data);
         if let Some(p) = self.buf.windows(4).position(|w| w == b"\r\n\r\n") {
             self.head_done = true;
+            // whatever follows the CONNECT head is TLS (or, if the client misbehaves, TLS where none
+            // should be): not reproducible bytes, kept out of the event-log hash
+            c.set_opaque();
             let head = self.buf[..p + 4].to_vec();
             let rest = self.buf[p + 4..].to_vec();
             let line = String::from_utf8_lossy(head.split(|b| *b == b'\r').next().unwrap_or(b"")).into_owned();
